@@ -17,7 +17,22 @@ for s in $SCEN; do
   # scenario D (postfilter: a 576-tap impulse response per frame) costs ~4.5 CPU-min per seed under Miri:
   # fewer seeds, higher pre-emption rate
   if [ "$s" = D ]; then N=$(( NALL < 16 ? NALL : 16 )); FLAGS="-Zmiri-preemption-rate=0.25 -Zmiri-deterministic-floats"; else N=$NALL; FLAGS="-Zmiri-preemption-rate=0.1 -Zmiri-deterministic-floats"; fi
-  MIRIFLAGS="$FLAGS -Zmiri-many-seeds=$BASE..$((BASE+N))" cargo +nightly miri run --offline -- "$s" >"$out" 2>&1
+  ARG2=""
+  if [ "$s" = F ]; then
+    # the sequential reference of the cold scenario comes from another process (scenario R, one seed)
+    MIRIFLAGS="$FLAGS -Zmiri-seed=$BASE" cargo +nightly miri run --offline -- R >"$out.ref" 2>&1
+    ARG2=$(grep -oE "^refhash [0-9a-f]{16}" "$out.ref" | cut -d' ' -f2)
+    if [ -z "$ARG2" ]; then
+      if grep -qE "error: could not compile|error\[E[0-9]+\]" "$out.ref"; then
+        echo "HARNESS-ERROR Miri build of scenario R failed:"; grep -E "^error" -A 6 "$out.ref" | head -20
+      else
+        echo "HARNESS-ERROR Miri scenario R (sequential reference) did not produce a hash:"; grep -E "error:|panicked at" "$out.ref" | head -4
+      fi
+      rc=2; continue
+    fi
+    exec_n=$((exec_n+1))
+  fi
+  MIRIFLAGS="$FLAGS -Zmiri-many-seeds=$BASE..$((BASE+N))" cargo +nightly miri run --offline -- "$s" $ARG2 >"$out" 2>&1
   code=$?
   ok=$(grep -c "^scenario $s ok" "$out")
   exec_n=$((exec_n+N))
@@ -30,14 +45,14 @@ for s in $SCEN; do
     fs=$(grep -oE "failing seed: *[0-9]+|FAILING SEED: *[0-9]+|seed [0-9]+ failed" "$out" | grep -oE "[0-9]+" | head -1)
     if [ -z "$fs" ]; then
       for k in $(seq $BASE $((BASE+N-1))); do
-        if ! MIRIFLAGS="$FLAGS -Zmiri-seed=$k" cargo +nightly miri run --offline -- "$s" >"$out.single" 2>&1; then fs=$k; break; fi
+        if ! MIRIFLAGS="$FLAGS -Zmiri-seed=$k" cargo +nightly miri run --offline -- "$s" $ARG2 >"$out.single" 2>&1; then fs=$k; break; fi
       done
     fi
     if [ -z "$fs" ]; then
       echo "HARNESS-ERROR Miri scenario $s failed under many-seeds ($ok of $N ok, exit $code) but no single seed reproduces"; rc=2; continue
     fi
     # confirm the single seed (this is the replay) and classify
-    MIRIFLAGS="$FLAGS -Zmiri-seed=$fs" cargo +nightly miri run --offline -- "$s" >"$out.single" 2>&1
+    MIRIFLAGS="$FLAGS -Zmiri-seed=$fs" cargo +nightly miri run --offline -- "$s" $ARG2 >"$out.single" 2>&1
     if [ $? -eq 0 ]; then echo "HARNESS-ERROR Miri scenario $s seed $fs does not reproduce alone"; rc=2; continue; fi
     if grep -q "Data race" "$out.single"; then cls="data-race"
     elif grep -q "Undefined Behavior" "$out.single"; then cls="undefined-behavior"
@@ -50,7 +65,7 @@ for s in $SCEN; do
       echo "verif_seed $VSEED"; echo "run $fs"; echo "swarm scenario=$s miri_seed=$fs flags=$FLAGS"
       echo "signature C03.miri|$cls"
       echo "detail $(grep -E "error:|panicked at|C03:" "$out.single" | head -3 | tr '\n' ' ' | cut -c1-400)"
-      echo "body 2"; echo "scenario $s"; echo "miri_seed $fs"; echo "end"
+      echo "body 3"; echo "scenario $s"; echo "miri_seed $fs"; echo "arg2 $ARG2"; echo "end"
     } > "$rp"
     echo "VIOLATION property=C03 replay=$rp"
     echo "  signature: C03.miri|$cls (scenario $s, Miri seed $fs)"
@@ -63,7 +78,7 @@ T1=$(date +%s.%N)
 python3 - "$ROOT" "$BASE" "$N" "$SCEN" "$exec_n" "$viol" "$failures" "$T0" "$T1" <<'PY'
 import json,sys
 root,base,n,scen,ex,viol,fails,t0,t1=sys.argv[1],int(sys.argv[2]),int(sys.argv[3]),sys.argv[4].split(),int(sys.argv[5]),int(sys.argv[6]),json.loads(sys.argv[7]),float(sys.argv[8]),float(sys.argv[9])
-json.dump({"executions":ex,"miri_seeds":f"{base}..{base+n}","seeds_per_scenario":n,"scenarios":{"A":"3 threads call synthesize on one Arc<Engine>","B":"2 threads step generators made from the shared engine while a 3rd clones, mutates and drops engines","C":"a generator is moved to another thread and finished after its engine was dropped; a second engine runs beside it","D":"2 threads, 1-label utterance, postfilter on (beta 0.4)","E":"10 threads call synthesize on one Arc<Engine> (GV streams)"},"scenarios_run":scen,
+json.dump({"executions":ex,"miri_seeds":f"{base}..{base+n}","seeds_per_scenario":n,"scenarios":{"A":"3 threads call synthesize on one Arc<Engine>","B":"2 threads step generators made from the shared engine while a 3rd clones, mutates and drops engines","C":"a generator is moved to another thread and finished after its engine was dropped; a second engine runs beside it","D":"2 threads, 1-label utterance, postfilter on (beta 0.4)","E":"10 threads call synthesize on one Arc<Engine> (GV streams)","F":"cold start: 3 threads make the first calls ever on a freshly built engine; then the engine, a clone and a separately built twin sequentially; compared with each other and with the hash of a sequential run in another process (scenario R)"},"scenarios_run":scen,
  "flags":"-Zmiri-many-seeds -Zmiri-preemption-rate=0.1 -Zmiri-deterministic-floats","detects":"data races, UB, and bit-inequality with the sequential reference under instruction-level pre-emption","violations":viol,"failures":fails,"wall_s":round(t1-t0,3)},
  open(root+'/evidence/parts/C03.l2b.json','w'),indent=1)
 PY
